@@ -530,6 +530,21 @@ class System:
                                 ctx.count("mixed_refused")
                                 continue
                             ctx.decided((self.route1, hist, "mixed-product", oname, rkind, la, lb))
+                            if isinstance(res, unyt.unyt_array) and okind == "div" and rkind == "quantity":
+                                # the quotient of two namesakes (same symbol, other registry) carried on: (a/b)*a is still
+                                # a quantity of the LEFT registry, readable by name there
+                                try:
+                                    gq = np.asarray((res * arr(ra, "foo")).to("foo").d, dtype=float)
+                                except Exception as e:  # noqa: BLE001
+                                    gq = type(e).__name__
+                                wq = np.array([1.0 / 3.0, 1.0]) * fa[1] / fb[1]
+                                if isinstance(gq, str) or not np.allclose(gq, wq, rtol=1e-12):
+                                    ctx.violation(
+                                        f"C13|mixed|op=(a/b)*a|right={rkind}|left={la}|route2={w.route2}|mode=product-not-in-left-operand's-registry",
+                                        dict(case, left=la, right=lb, op="(a/b)*a"),
+                                        wq.tolist(),
+                                        gq if isinstance(gq, str) else gq.tolist(),
+                                    )
                             if not isinstance(res, unyt.unyt_array) or okind == "div":
                                 continue
                             # judged by behaviour, not identity (registries with identical contents share cached unit objects):
@@ -548,6 +563,25 @@ class System:
                                     dict(case, left=la, right=lb, op=oname),
                                     np.asarray(wantp).tolist(),
                                     gotp if isinstance(gotp, str) else np.asarray(gotp).tolist(),
+                                )
+                    # an explicitly dimensionless left operand is still the LEFT operand
+                    for dname, mkd in (("quantity", lambda: unyt.unyt_quantity(0.5, "", registry=ra)), ("array", lambda: unyt.unyt_array(np.array([0.5, 0.5]), "dimensionless", registry=ra))):  # (Unit * array is implemented as array * Unit: which operand is "left" there is not ours to say)
+                        for oname2, of2 in (("*", lambda x, y: x * y), ("np.multiply", lambda x, y: np.multiply(x, y))):
+                            if dname == "unit" and oname2 != "*":
+                                continue
+                            try:
+                                res2 = of2(mkd(), arr(rb, "foo", (3.0, 4.0)))
+                                g2 = np.asarray(res2.to("foo").d, dtype=float)
+                            except Exception as e:  # noqa: BLE001
+                                g2 = type(e).__name__
+                            w2 = np.array([3.0, 4.0]) * (1.0 if dname == "unit" else 0.5) * fb[1] / fa[1]
+                            ctx.decided((self.route1, hist, "mixed-dimless-left", dname, oname2, la, lb))
+                            if isinstance(g2, str) or not np.allclose(g2, w2, rtol=1e-12):
+                                ctx.violation(
+                                    f"C13|mixed|op=dimensionless-{dname}{oname2}b|left={la}|route2={w.route2}|mode=product-not-in-left-operand's-registry",
+                                    dict(case, left=la, right=lb),
+                                    w2.tolist(),
+                                    g2 if isinstance(g2, str) else g2.tolist(),
                                 )
                     if not np.allclose(got, want, rtol=1e-12):
                         ctx.violation(
@@ -651,6 +685,55 @@ def part_default_paths(ctx, shard):
     world.reset_world()
 
 
+def part_ctor_cross(ctx, shard):
+    """constructors handed a Unit OBJECT of one registry together with registry=<another>: the data are bound to the
+    registry that was asked for (its table decides what the unit text means from then on), whether or not the two tables
+    happen to be equal at that moment"""
+    data = np.array([1.0, 2.0])
+    for twin, warm, how, edit in shard:
+        world.reset_world()
+        ra, rb = UnitRegistry(), UnitRegistry()
+        ra.add("foo", 3.0, DIMS["length"], prefixable=True)
+        rb.add("foo", 3.0 if twin == "identical" else 6.0, DIMS["length"], prefixable=True)
+        if warm:
+            Unit("km", registry=rb)  # an unrelated earlier parse in the other registry (changes its table, hence its content id)
+        fa0, fb0 = 3.0, (3.0 if twin == "identical" else 6.0)
+        ctx.count("evaluations")
+        try:
+            if how == "array(Unit-of-b, registry=a)":
+                x, bind, f_created = unyt.unyt_array(data.copy(), Unit("foo", registry=rb), registry=ra), "a", fa0
+            elif how == "quantity(Unit-of-b, registry=a)":
+                x, bind, f_created = unyt.unyt_quantity(2.0, Unit("foo", registry=rb), registry=ra), "a", fa0
+            elif how == "array(str, registry=a)":
+                x, bind, f_created = unyt.unyt_array(data.copy(), "foo", registry=ra), "a", fa0
+            else:  # array(Unit-of-b)
+                x, bind, f_created = unyt.unyt_array(data.copy(), Unit("foo", registry=rb)), "b", fb0
+        except Exception as e:  # noqa: BLE001
+            ctx.count("ctor_refused:" + type(e).__name__)
+            continue
+        if edit == "modify-a":
+            ra.modify("foo", 12.0)
+        elif edit == "modify-b":
+            rb.modify("foo", 12.0)
+        f_now = {"a": 12.0 if edit == "modify-a" else fa0, "b": 12.0 if edit == "modify-b" else fb0}[bind]
+        case = {"part": "ctor-cross", "twin": twin, "warm": warm, "how": how, "edit": edit}
+        base = f"C13|ctor-cross|how={how}|tables={twin}|edit={edit}"
+        ctx.decided(("ctor-cross", twin, warm, how, edit))
+        want_reg = ra if bind == "a" else rb
+        if x.units.registry is not want_reg:
+            ctx.violation(base + "|mode=bound-to-the-other-registry", case, bind, "other")
+            continue
+        try:
+            got = np.asarray(x.to("foo").d, dtype=float).reshape(-1)
+        except Exception as e:  # noqa: BLE001
+            ctx.violation(base + f"|mode=by-name-conversion-raises:{type(e).__name__}", case, None, str(e)[:80])
+            continue
+        want = np.asarray(x.d, dtype=float).reshape(-1) * 0 + (np.array([2.0]) if "quantity" in how else data) * f_created / f_now
+        if not np.allclose(got, want, rtol=1e-12):
+            ctx.violation(base + "|mode=by-name-conversion-reads-the-other-registry", case, want.tolist(), got.tolist())
+    world.reset_world()
+
+
 def run(ctx):
     t0 = time.time()
     events = events_for(ctx.tier)
@@ -662,6 +745,10 @@ def run(ctx):
         stats[route1] = st
         capped = capped or st["bfs_capped"]
     harness.pmap(ctx, part_default_paths, [[p] for p in DEFAULT_PATHS])
+    combos = list(itertools.product(("identical", "different"), (False, True),
+                                    ("array(Unit-of-b, registry=a)", "quantity(Unit-of-b, registry=a)", "array(str, registry=a)", "array(Unit-of-b)"),
+                                    ("none", "modify-a", "modify-b")))
+    harness.pmap(ctx, part_ctor_cross, [combos[i::8] for i in range(8)])
     return {
         "coverage": {
             "default_paths": list(DEFAULT_PATHS),
@@ -686,6 +773,9 @@ def run(ctx):
 
 def replay(case):
     ctx = harness.Ctx(PROPERTY, "quick", 0)
+    if case.get("part") == "ctor-cross":
+        part_ctor_cross(ctx, [(case["twin"], case["warm"], case["how"], case["edit"])])
+        return list(ctx.violations.items())
     if case.get("part") == "default-paths":
         part_default_paths(ctx, [case["path"]])
         return list(ctx.violations.items())
